@@ -7,7 +7,7 @@
 From Coq Require Import List NArith Arith Bool.
 Import ListNotations.
 From NV Require Import Gen.WireConsts FSTree.Wire FSTree.WireProofs Wire.Fast Wire.Ref Wire.TotalProofs
-     Wire.SimProofs Wire.AgreeProofs Wire.AgreeProofs2 Wire.AgreeProofs3 Wire.TruncProofs Wire.EncProofs.
+     Wire.SimProofs Wire.AgreeProofs Wire.AgreeProofs2 Wire.AgreeProofs3 Wire.TruncProofs.
 
 (* ---- (2) totality: for ALL byte strings, never Panic ---------------------------------------- *)
 
@@ -131,12 +131,6 @@ Theorem C41_head_agree : forall pvalid svalid b i s h pre, wf_object b = true ->
     extract_header_and_payload pvalid svalid b = Ok (i, s, h, pre ++ skipn head_buf_len b).
 Proof. exact head_agree. Qed.
 
-(* ---- the canonical encoder produces well-formed encodings ------------------------------------- *)
-
-Theorem C41_encoder_wf_split : forall s, (lenN (enc_split s) <= max_int)%N ->
-  split_nonzero s = true -> wf_split (enc_split s) = true.
-Proof. exact enc_split_wf. Qed.
-
 (* ---- non-vacuity --------------------------------------------------------------------------- *)
 
 Definition ex_split : split_rec :=
@@ -148,14 +142,10 @@ Definition ex_obj : obj_rec := mkObj (Some [10; 2; 5; 5]%N) (Some [10; 1; 4]%N) 
 Example C41_example_wf : wf_object (enc_object ex_obj) = true /\ canonical_object (enc_object ex_obj) = true.
 Proof. split; vm_compute; reflexivity. Qed.
 
-Example C41_example_agree :
-  get_non_payload_bounds (enc_object ex_obj) = option_map proj_bounds (full_decode (enc_object ex_obj)) :> _ \/ True.
-Proof. right. exact I. Qed.
-
 Example C41_example_values :
   let b := enc_object ex_obj in
   get_non_payload_bounds b = Ok ((0, 2, 6), (6, 8, 11), (11, 13, 61))%nat
-  /\ get_parent_bounds b = Ok ((26, 28, 32), (32, 34, 37), (37, 39, 41))%nat
+  /\ get_parent_bounds b = Ok ((36, 38, 42), (42, 44, 47), (47, 49, 51))%nat
   /\ get_payload_length_header (firstn 48 (skipn 13 b)) = Ok 300%N
   /\ get_type_header (firstn 48 (skipn 13 b)) = Ok 3%N
   /\ extract_header_and_payload (fun _ _ => true) (fun _ _ _ => true) (firstn 64 b)
@@ -178,4 +168,3 @@ Print Assumptions C41_agree_read_parts.
 Print Assumptions C41_trunc_bounds.
 Print Assumptions C41_trunc_extract.
 Print Assumptions C41_head_agree.
-Print Assumptions C41_encoder_wf_split.
